@@ -1,8 +1,7 @@
 (* Proofs/LedgerAppend.v — C04: a block is appended only if it correctly extends
    the signed chain; rejected blocks change nothing; the chain stays linked. *)
-From Sky Require Import Base.Uint Model.ArithSpec Gen.Mathutil Model.Ledger Model.LedgerSpec Model.LedgerObs Model.LedgerReplay
-  Proofs.UintLemmas Proofs.MathutilProofs Proofs.LedgerBasics Proofs.LedgerProofs Proofs.LedgerSupply
-  Proofs.LedgerUtxo.
+From Sky Require Import Base.Uint Model.Ledger Model.LedgerSpec Model.LedgerObs Model.LedgerReplay
+  Proofs.LedgerBasics Proofs.LedgerProofs.
 From Coq Require Import Lia ZifyBool Permutation.
 Open Scope Z_scope.
 
